@@ -4,9 +4,16 @@ import (
 	"fmt"
 	"math/rand"
 	"os"
+	"regexp"
 	"strings"
 
 	"verif/harness/internal/smf"
+)
+
+var (
+	eventLine = regexp.MustCompile(`^Track (\d+)\t@(\d+)\((\d+)\)\t(\w+)(.*)$`)
+	eventKey  = regexp.MustCompile(`key: (\d+)`)
+	eventVel  = regexp.MustCompile(`velocity: (\d+)`)
 )
 
 func fileRec(b []byte, tracks int) Rec {
@@ -92,18 +99,51 @@ func init() {
 			if len(out) == 0 {
 				return []Rec{{"kind": "nofile"}}
 			}
-			return []Rec{fileRec(out, ci(k, "tracks"))}
+			recs := []Rec{fileRec(out, ci(k, "tracks"))}
+			if !cb(k, "ofile") && !cb(k, "debug") {
+				// growth beyond the listed properties: the human-readable listing of `write event` must describe the same events
+				evArgs := append([]string{"write", "event"}, args[1:]...)
+				re := c.crd(evArgs, d.YAML())
+				lines := [][]any{}
+				for _, ln := range strings.Split(strings.TrimRight(string(re.Stdout), "\n"), "\n") {
+					m := eventLine.FindStringSubmatch(ln)
+					if m == nil {
+						lines = append(lines, []any{-1, -1, -1, "unparsed", -1, -1})
+						continue
+					}
+					key, vel := -1, -1
+					if mk := eventKey.FindStringSubmatch(m[5]); mk != nil {
+						fmt.Sscan(mk[1], &key)
+					}
+					if mv := eventVel.FindStringSubmatch(m[5]); mv != nil {
+						fmt.Sscan(mv[1], &vel)
+					}
+					var trk, tick, beat int
+					fmt.Sscan(m[1], &trk)
+					fmt.Sscan(m[2], &tick)
+					fmt.Sscan(m[3], &beat)
+					lines = append(lines, []any{trk, tick, beat, m[4], key, vel})
+				}
+				f := smf.Parse(out)
+				recs = append(recs, Rec{"kind": "listing", "sub": "listing", "ok": re.Exit == 0, "lines": lines, "ev": eventsOf(f), "division": f.Division})
+			}
+			return recs
 		},
 		Nontrivial: func(r Rec) bool { return r["kind"] == "file" },
 		Extra: func(recs []Rec) map[string]any {
-			files, bytes := 0, 0
+			files, bytes, nofile, listings := 0, 0, 0, 0
 			for _, r := range recs {
-				if r["kind"] == "file" {
+				switch r["kind"] {
+				case "file":
 					files++
 					bytes += len(r["b"].([]int))
+				case "nofile":
+					nofile++
+				case "listing":
+					listings++
 				}
 			}
-			return map[string]any{"files": files, "bytes": bytes, "nofile": len(recs) - files}
+			return map[string]any{"files": files, "bytes": bytes, "nofile": nofile, "listings": listings}
 		},
 	})
 }
